@@ -1,4 +1,137 @@
+/-
+C14 — similarity metrics equal their formulas, are symmetric and bounded.
+
+The formulas are those of `wn/similarity.py` over exact rationals (`Model/Sim.lean`);
+`-log` is `Real.log` of Mathlib for `lch`.  Float rounding and `math.log` are
+runtime behaviour, tied by the correspondence check only.
+-/
+import Mathlib.Algebra.Order.Field.Basic
+import Mathlib.Tactic.Linarith
+import Mathlib.Tactic.Positivity
+import Mathlib.Tactic.FieldSimp
+import Mathlib.Analysis.SpecialFunctions.Log.Basic
 import WnVerif.Model.Sim
 namespace WnVerif.Props.C14
-theorem placeholder_true : True := trivial
+open WnVerif.Sim WnVerif.Graph
+
+/-- path lies in [0, 1] -/
+theorem C14_path_range (d : Option Nat) : 0 ≤ pathQ d ∧ pathQ d ≤ 1 := by
+  cases d with
+  | none => simp [pathQ]
+  | some d =>
+    unfold pathQ
+    constructor
+    · positivity
+    · rw [div_le_one (by positivity)]
+      have : (0:ℚ) ≤ d := Nat.cast_nonneg d
+      linarith
+
+/-- path is 1 exactly for identical synsets (shortest path of length 0) … -/
+theorem C14_path_one_iff (d : Option Nat) : pathQ d = 1 ↔ d = some 0 := by
+  cases d with
+  | none => simp [pathQ]
+  | some d =>
+    unfold pathQ
+    have hpos : (0:ℚ) < (d:ℚ) + 1 := by positivity
+    rw [div_eq_one_iff_eq (ne_of_gt hpos)]
+    constructor
+    · intro h
+      have : (d:ℚ) = 0 := by linarith
+      simp at this; simp [this]
+    · intro h; simp at h; simp [h]
+
+/-- … and 0 exactly when the synsets are unconnected -/
+theorem C14_path_zero_iff (d : Option Nat) : pathQ d = 0 ↔ d = none := by
+  cases d with
+  | none => simp [pathQ]
+  | some d =>
+    unfold pathQ
+    have hpos : (0:ℚ) < (d:ℚ) + 1 := by positivity
+    simp
+    intro h; linarith
+
+/-- no pair scores higher than a synset with itself (path) -/
+theorem C14_path_self_max (d : Option Nat) : pathQ d ≤ pathQ (some 0) := by
+  have := (C14_path_range d).2
+  simpa [pathQ] using this
+
+/-- wup lies in (0, 1] (k = depth of the LCS + 1 ≥ 1) -/
+theorem C14_wup_range (i j k : Nat) (hk : 1 ≤ k) : 0 < wupQ i j k ∧ wupQ i j k ≤ 1 := by
+  unfold wupQ
+  have hk' : (1:ℚ) ≤ k := by exact_mod_cast hk
+  have hi : (0:ℚ) ≤ i := Nat.cast_nonneg i
+  have hj : (0:ℚ) ≤ j := Nat.cast_nonneg j
+  have hden : (0:ℚ) < (i:ℚ) + j + 2 * k := by linarith
+  constructor
+  · apply div_pos <;> linarith
+  · rw [div_le_one hden]; linarith
+
+/-- wup of a synset with itself is 1 (i = j = 0), hence maximal -/
+theorem C14_wup_self (k : Nat) (hk : 1 ≤ k) : wupQ 0 0 k = 1 := by
+  unfold wupQ
+  have hk' : (1:ℚ) ≤ k := by exact_mod_cast hk
+  have : (2:ℚ) * k ≠ 0 := by linarith
+  simp [this]
+
+theorem C14_wup_self_max (i j k k' : Nat) (hk : 1 ≤ k) (hk' : 1 ≤ k') :
+    wupQ i j k ≤ wupQ 0 0 k' := by
+  rw [C14_wup_self k' hk']; exact (C14_wup_range i j k hk).2
+
+/-- the wup formula is symmetric in the two path lengths -/
+theorem C14_wup_symm (i j k : Nat) : wupQ i j k = wupQ j i k := by
+  unfold wupQ; rw [add_comm (i:ℚ) (j:ℚ)]
+
+/-- the `lch` argument, as a real number, and the Leacock-Chodorow value -/
+noncomputable def lchR (d D : ℕ) : ℝ := -Real.log (((d:ℝ) + 1) / (2 * (D:ℝ)))
+
+/-- the rational computed by the model is the argument of the logarithm -/
+theorem C14_lch_arg (d D : ℕ) : ((lchArg d D : ℚ) : ℝ) = ((d:ℝ) + 1) / (2 * (D:ℝ)) := by
+  unfold lchArg; push_cast; ring
+
+/-- no pair scores higher than a synset with itself (lch), for every taxonomy depth D > 0 -/
+theorem C14_lch_self_max (d D : ℕ) (hD : 0 < D) : lchR d D ≤ lchR 0 D := by
+  unfold lchR
+  have hD' : (0:ℝ) < 2 * (D:ℝ) := by positivity
+  have h1 : (0:ℝ) < ((0:ℕ):ℝ) + 1 := by norm_num
+  have hle : (((0:ℕ):ℝ) + 1) / (2 * (D:ℝ)) ≤ ((d:ℝ) + 1) / (2 * (D:ℝ)) := by
+    apply div_le_div_of_nonneg_right _ (le_of_lt hD')
+    have : (0:ℝ) ≤ d := Nat.cast_nonneg d
+    push_cast; linarith
+  have := Real.log_le_log (by positivity) hle
+  linarith
+
+/-- incompatible parts of speech: `s` is treated as `a`, everything else must be equal -/
+theorem C14_pos_compatible (p q : String) :
+    posCompatible p q = true ↔ (if p = "s" then "a" else p) = (if q = "s" then "a" else q) := by
+  unfold posCompatible
+  by_cases hp : p = "s" <;> by_cases hq : q = "s" <;> simp [hp, hq]
+
+theorem C14_a_s_compatible : posCompatible "a" "s" = true ∧ posCompatible "s" "a" = true ∧
+    posCompatible "s" "s" = true := by decide
+
+/-- incompatible parts of speech raise an error in every metric of the model -/
+theorem C14_pos_error (g : Adj) (fuel : Nat) (pos : Nat → String) (a b : Nat) (sim : Bool) (D : Nat)
+    (h : posCompatible (pos a) (pos b) = false) :
+    (match Sim.path g fuel pos a b sim with | .error => True | _ => False) ∧
+    (match Sim.wup g fuel pos a b sim with | .error => True | _ => False) ∧
+    (match Sim.lch g fuel pos a b D sim with | .error => True | _ => False) := by
+  simp [Sim.path, Sim.wup, Sim.lch, h]
+
+/-- wup / lch raise without a common hypernym / without a path -/
+theorem C14_no_common_error (g : Adj) (fuel : Nat) (pos : Nat → String) (a b : Nat) (sim : Bool)
+    (h : lowestCommonHypernyms g fuel (some a) (some b) sim = []) :
+    (match Sim.wup g fuel pos a b sim with | .error => True | _ => False) := by
+  have : Sim.wup g fuel pos a b sim = .error := by
+    unfold Sim.wup
+    rw [h]
+    split <;> rfl
+  rw [this]; trivial
+
+/-- path never raises for compatible parts of speech; it is `pathQ` of the shortest path length -/
+theorem C14_path_formula (g : Adj) (fuel : Nat) (pos : Nat → String) (a b : Nat) (sim : Bool)
+    (h : posCompatible (pos a) (pos b) = true) :
+    Sim.path g fuel pos a b sim =
+      .ok (pathQ ((shortestPath g fuel (some a) (some b) sim).map List.length)) := by
+  simp [Sim.path, h]
+
 end WnVerif.Props.C14
